@@ -41,6 +41,9 @@ REPR_SENT = "R3PRs3c"      # only in what __repr__ returns
 DUNDER_SENT = "DUNDs3c"    # only in what __format__(spec != "") / __reduce__ / __getstate__ / __bytes__ / __dir__ return
 REPR_SIG = "repr-of-object-inside-dict-rendered"
 KWARG_SIG = "filter-injected-argument-overridable"
+CLSNAME_SIG = "undefined-hint-shows-class-name"
+CLASSGETITEM_SIG = "class-getitem-on-class-objects"
+CLS_SENT = "CLSs3c"        # part of the Python class name of every generated instance
 
 # ----------------------------------------------------------------------------
 # logs
@@ -252,7 +255,18 @@ def hybrids(secret: str) -> dict[str, Any]:
         object.__setattr__(x, "secret", secret)
         return x
 
+    T = typing.TypeVar("T")
+
+    class Registry:                      # a class whose own __class_getitem__ is a Python method
+        def __class_getitem__(cls, key):  # type: ignore[no-untyped-def]
+            LOG.calls.append("method:__class_getitem__")
+            return secret + "g"
+
+    class Page(typing.Generic[T]):
+        pass
+
     _HYBRIDS[secret] = {
+        "reg": lambda: Registry, "gen": lambda: Page, "lst": lambda: list,
         "acct": lambda: Acct(7, "n"),
         "cred": lambda: Cred("u", 2),
         "dsub": dsub,
@@ -271,6 +285,19 @@ def hybrid_data() -> list[tuple[str, tuple]]:
     data.append(("tl", ("list", [data[0][1], data[1][1]])))
     data.append(("kk", ("str", "api_token")))
     return data
+
+
+def classobj_data() -> list[tuple[str, tuple]]:
+    return [(n, ("hyb", {"cls": n, "secret": SENT})) for n in ("reg", "gen", "lst")]
+
+
+def classobj_templates() -> list[str]:
+    out = []
+    for v in ("reg", "gen", "lst"):
+        for n in ("size", "first", "admin_token", "__class__", "x"):
+            out += [f"{{{{ {v}.{n} }}}}", f"{{{{ {v}['{n}'] }}}}", f"{{{{ {v} | map: '{n}' | join: ',' }}}}",
+                    f"{{{{ {v} | where: '{n}' | size }}}}", f"{{{{ {v}.{n} | default: 'D' }}}}"]
+    return out
 
 
 def hybrid_templates() -> list[str]:
@@ -426,7 +453,7 @@ def _instance_class(kind: str, is_async: bool, has_liq: bool, has_html: bool, ha
         ns["__call__"] = __call__
     bases: tuple[type, ...] = {"plain": (Base,), "mapping": (Base, abc.Mapping),
                                "sequence": (Base, abc.Sequence)}[kind]
-    cls = type("D%d" % len(_CLASSES), bases, ns)
+    cls = type("D%d%s" % (len(_CLASSES), CLS_SENT), bases, ns)
     _CLASSES[key] = cls
     return cls
 
@@ -1704,6 +1731,16 @@ def kernel_a_items(thorough: bool) -> list[dict[str, Any]]:
         exp = _c_fres(get, None).replace("(Ok (FOpaque 999))", "(Ok FSuper)")
         t = f"blockdrop_getitem {cq(n)}"
         add(f"fval_res_eqb ({t}) {exp}", t, f"BlockDrop[{n!r}]", exp)
+        if hasattr(bd, "__getitem_async__"):      # the async twin answers the same keys
+            def aget(n: str = n) -> Any:
+                loop = asyncio.new_event_loop()
+                try:
+                    loop.run_until_complete(bd.__getitem_async__(n))
+                finally:
+                    loop.close()
+                return _SUPER
+            expa = _c_fres(aget, None).replace("(Ok (FOpaque 999))", "(Ok FSuper)")
+            add(f"fval_res_eqb ({t}) {expa}", t, f"BlockDrop.__getitem_async__ [{n!r}]", expa)
         t2 = f"match blockdrop_getattr {cq(n)} with Some _ => true | None => false end"
         add(f"Bool.eqb ({t2}) {C.cbool(hasattr(bd, n))}", t2, f"hasattr(BlockDrop, {n!r})", str(hasattr(bd, n)))
     # through templates: every name as `tablerowloop.<name>` (the for loop goes
@@ -1874,6 +1911,7 @@ def key_templates() -> list[str]:
             f"{{% case a[{k}] %}}{{% when 1 %}}A{{% else %}}B{{% endcase %}}{{% with w: a[{k}] %}}{{{{ w }}}}{{% endwith %}}",
             f"{{% include 'p', x: a[{k}] %}}|{{% render 'p', x: m[{k}] %}}",
             f"{{{{ a[{k}] == nil }}}}|{{{{ a[{k}] | json }}}}|{{{{ a[{k}] | date: '%Y' }}}}|{{{{ a[{k}] | plus: 1 }}}}",
+            f"{{{{ [{k}] }}}}|{{{{ [{k}].x }}}}|{{{{ [{k}] | default: 'D' }}}}|{{% if [{k}] %}}T{{% else %}}E{{% endif %}}",
         ]
     return out
 
@@ -2085,7 +2123,7 @@ WITNESS_TRANSLATIONS = [
 # ----------------------------------------------------------------------------
 # main
 
-KNOWN_SIGS = set(KNOWN_LITERALS.values()) | {REPR_SIG}
+KNOWN_SIGS = set(KNOWN_LITERALS.values()) | {REPR_SIG, CLSNAME_SIG, CLASSGETITEM_SIG}
 TR_SIG = "translations-provider-rebindable-by-template"
 TR_METHODS = frozenset({"gettext", "ngettext", "pgettext", "npgettext"})
 MAGIC_NAMES = ["locale", "input_locale", "timezone", "input_timezone", "currency_code", "currency_format",
@@ -2179,6 +2217,9 @@ def main(chk: C.Check, build: C.Build) -> None:
             report("secret-in-output", f"an attribute value appears in the {'output' if out[0] == 'ok' else 'error message'}: {out[1:]!r:.200}", rp)
         if internal_leak(out):
             report("engine-internal-in-output", f"the output shows a Python-internal object: {out[1]!r:.200}", rp)
+        if out[0] == "ok" and CLS_SENT in out[1]:
+            report(CLSNAME_SIG if "a variable name must be a string" in out[1] else "class-name-in-output",
+                   f"the Python class name of a context object appears in the output: {out[1]!r:.200}", rp)
         if repr_leaks(out):
             # repr(obj) is not string conversion.  Reached through str(dict) it is the known
             # finding; taken explicitly by the engine (hint texts, error messages) it is not.
@@ -2208,7 +2249,9 @@ def main(chk: C.Check, build: C.Build) -> None:
             for sig, what in check_logs(pkg, exempt):
                 report(sig, what, dict(rp, data=d2, implementation=out2))
             if canon(out) != canon(out2):
-                report("differential", f"data differing only in Python attributes render differently: {canon(out)!r:.120} vs {canon(out2)!r:.120}",
+                # the twin's class has another name: a class name in the hint differs, same known finding
+                report(CLSNAME_SIG if (out[0] == "ok" and CLS_SENT in out[1] and "must be a string" in out[1])
+                       else "differential", f"data differing only in Python attributes render differently: {canon(out)!r:.120} vs {canon(out2)!r:.120}",
                        dict(rp, data_twin=d2, implementation_twin=out2))
         return out
 
@@ -2250,6 +2293,16 @@ def main(chk: C.Check, build: C.Build) -> None:
                     report(KWARG_SIG, f"{wsrc} (environment {cfg}, {'async' if a else 'sync'}) hands the template's o to the "
                            f"filter in place of the injected argument: reads {reads}, outcome {out[:2]}",
                            {"source": wsrc, "cfg": cfg, "async": a, "data": [("o", ko)], "implementation": out})
+
+    out = run_impl("{{ [o] }}", [("o", ko)], undef="debug")
+    if out[0] == "ok" and CLS_SENT in out[1]:
+        chk.finding(CLSNAME_SIG, f"{{{{ [o] }}}} with DebugUndefined prints o.__class__.__name__: {out[1]!r:.100}",
+                    {"source": "{{ [o] }}", "undefined": "DebugUndefined", "data": [("o", ko)], "implementation": out})
+    out = run_impl("{{ lst.size }}|{{ reg.admin_token }}", classobj_data())
+    if out[0] == "ok" and ("list['size']" in out[1] or LOG.calls):
+        chk.finding(CLASSGETITEM_SIG, "item access on a class object calls its __class_getitem__ with the template's "
+                    f"segment and prints the result: {{{{ lst.size }}}}|{{{{ reg.admin_token }}}} -> {out[1]!r:.80}",
+                    {"source": "{{ lst.size }}|{{ reg.admin_token }}", "implementation": out, "calls": list(LOG.calls)})
 
     # -- 1. the getattr-by-name drops ------------------------------------------
     ka = kernel_a_items(thorough)
@@ -2306,6 +2359,12 @@ def main(chk: C.Check, build: C.Build) -> None:
     for src in key_templates():
         for undef in UNDEFS:
             oracle_run(src, kd, undef=undef, names=set(re.findall(r"[A-Za-z_][A-Za-z0-9_]*", src)))
+    # class objects as data: obj[key] on a class is __class_getitem__ (known finding)
+    known_as[0] = CLASSGETITEM_SIG
+    cd_ = classobj_data()
+    for src in classobj_templates():
+        oracle_run(src, cd_, names={"size", "admin_token", "__class__"})
+    known_as[0] = None
     # named tuples and the other hybrid shapes: every attribute name, dotted / bracketed /
     # variable-keyed, through paths, filters and loops
     hd = hybrid_data()
